@@ -15,6 +15,7 @@
 //!                                 at the first hit of that hook point (or finished); without: wait for its end.
 //!                                 Here `x <a>` = pg::verif::publish_stopping (the exit path of set_status).
 //!     go <T>                      release T and wait until it finishes
+//!     stop <a>                    real `stop` of actor a on the runtime + await its join handle (wait() returned)
 //!   output: [view after setup; view at the end] (events of the whole race in the last view)
 //! stdout: one Coq term per case: a list of `mkView ...` (one per op), see coq/Pg/Model.v.
 //!
@@ -336,7 +337,7 @@ async fn run_seq(n: u64, line: &str, race: bool) -> String {
             outs.push(view(&c, &[]));
         }
         let first = outs.last().unwrap().clone();
-        run_race(&c, steps);
+        run_race(&c, steps, &mut handles).await;
         settle().await;
         let evs: Vec<Logged> = std::mem::take(&mut *log.lock().unwrap());
         outs = vec![first, view(&c, &evs)];
@@ -362,7 +363,7 @@ struct Ctl {
     cv: std::sync::Condvar,
 }
 
-fn run_race(c: &Case, steps: &str) {
+async fn run_race(c: &Case, steps: &str, handles: &mut HashMap<u64, ractor::concurrency::JoinHandle<()>>) {
     let ctl = Arc::new(Ctl::default());
     let hook_ctl = ctl.clone();
     pg::verif::set_point_hook(Some(Arc::new(move |name: &'static str| {
@@ -440,6 +441,15 @@ fn run_race(c: &Case, steps: &str) {
                 if let Some(h) = threads.remove(&tn) {
                     h.join().unwrap();
                 }
+            }
+            "stop" => {
+                // the REAL exit of the actor on the runtime: stop, wait() returned, monitors settled
+                let a = u(&w[1]);
+                c.cells[&a].stop(None);
+                if let Some(h) = handles.remove(&a) {
+                    h.await.unwrap();
+                }
+                settle().await;
             }
             other => panic!("unknown race step {other}"),
         }
